@@ -11,11 +11,12 @@ import (
 	"bytes"
 	"context"
 	"fmt"
-	"reflect"
 	"math/rand"
 	"os"
 	"path/filepath"
+	"reflect"
 	"sort"
+	"strconv"
 	"strings"
 
 	"github.com/prometheus/common/model"
@@ -169,15 +170,16 @@ func coqPrs(prs diags.PositionRanges) string {
 func coqZPair(a, b int) string { return "(" + coqZ(int64(a)) + ", " + coqZ(int64(b)) + ")" }
 
 type c06NodeObs struct {
-	id                       int
-	value                    string
-	line, col                int
-	block                    bool   // yaml Style has the Literal or Folded bit
-	anchor                   string // yaml Anchor
-	minCol, offLine, offCol  int
-	obs                      diags.PositionRanges
-	panicked                 bool
-	guard                    bool // claimed to satisfy the guard of the partial theorem
+	id                      int
+	value                   string
+	line, col               int
+	block                   bool   // yaml Style has the Literal or Folded bit
+	anchor                  string // yaml Anchor
+	dq                      bool   // yaml Style has the DoubleQuoted bit
+	minCol, offLine, offCol int
+	obs                     diags.PositionRanges
+	panicked                bool
+	guard                   bool // claimed to satisfy the guard of the partial theorem
 }
 
 func (n c06NodeObs) coq() string {
@@ -185,8 +187,8 @@ func (n c06NodeObs) coq() string {
 	if !n.panicked {
 		obs = "(Some " + coqPrs(n.obs) + ")"
 	}
-	return fmt.Sprintf("{| no_id := %s; no_node := mksn %s %s %s %s %s; no_min := %s; no_offl := %s; no_offc := %s; no_obs := %s; no_guard := %s |}",
-		coqN(n.id), coqStr(n.value), coqZ(int64(n.line)), coqZ(int64(n.col)), coqBool(n.block), coqStr(n.anchor), coqZ(int64(n.minCol)), coqZ(int64(n.offLine)), coqZ(int64(n.offCol)), obs, coqBool(n.guard))
+	return fmt.Sprintf("{| no_id := %s; no_node := mksn %s %s %s %s %s %s; no_min := %s; no_offl := %s; no_offc := %s; no_obs := %s; no_guard := %s |}",
+		coqN(n.id), coqStr(n.value), coqZ(int64(n.line)), coqZ(int64(n.col)), coqBool(n.block), coqStr(n.anchor), coqBool(n.dq), coqZ(int64(n.minCol)), coqZ(int64(n.offLine)), coqZ(int64(n.offCol)), obs, coqBool(n.guard))
 }
 
 func coqDoc(lines []string, nodes []c06NodeObs) string {
@@ -199,6 +201,7 @@ func coqDoc(lines []string, nodes []c06NodeObs) string {
 
 // callNPR runs the real NewPositionRange (+AddOffset) and recovers a panic.
 func c06IsBlock(st yaml.Style) bool { return st&(yaml.LiteralStyle|yaml.FoldedStyle) != 0 }
+func c06IsDq(st yaml.Style) bool    { return st&yaml.DoubleQuotedStyle != 0 }
 
 func callNPR(lines []string, value string, line, col int, style yaml.Style, anchor string, minCol, offLine, offCol int) (out diags.PositionRanges, panicked bool) {
 	defer func() {
@@ -252,6 +255,85 @@ func readBack(lines []string, ps []c06Pos, embedded bool) (string, bool) {
 		default:
 			return b.String(), false
 		}
+	}
+	return b.String(), true
+}
+
+// c06IsDqStyle: printer styles written as a double-quoted scalar
+func c06IsDqStyle(st string) bool { return st == "dq" || st == "dqesc" || st == "dqml" }
+
+// c06EscapeDecode (independent of pint: YAML 1.2 section 5.7): s starts with a backslash; returns the decoded text and the
+// number of source bytes of the escape sequence (1 = escaped line break at the end of the line).
+func c06EscapeDecode(s string) (string, int) {
+	if len(s) < 2 {
+		return "", 1
+	}
+	simple := map[byte]string{'0': "\x00", 'a': "\a", 'b': "\b", 't': "\t", '\t': "\t", 'n': "\n", 'v': "\v", 'f': "\f", 'r': "\r", 'e': "\x1b",
+		' ': " ", '"': "\"", '/': "/", '\\': "\\", 'N': "\u0085", '_': "\u00a0", 'L': "\u2028", 'P': "\u2029"}
+	if d, ok := simple[s[1]]; ok {
+		return d, 2
+	}
+	n := map[byte]int{'x': 2, 'u': 4, 'U': 8}[s[1]]
+	if n == 0 || len(s) < 2+n {
+		return "", 2
+	}
+	v, err := strconv.ParseUint(s[2:2+n], 16, 32)
+	if err != nil {
+		return "", 2
+	}
+	return string(rune(v)), 2 + n
+}
+
+// readBackDecoded: the "modulo escapes" reading for a double-quoted scalar starting at (l0, c0) = its opening quote: a
+// position on a column of an escape sequence stands for a byte that sequence decodes to (the value byte vb, if the
+// sequence decodes to it; otherwise its first decoded byte); every other position is read literally.
+func readBackDecoded(lines []string, ps []c06Pos, value string, l0, c0 int, embedded bool) (string, bool) {
+	// escape spans per line: column (1-based) -> decoded text of the sequence covering it
+	spans := map[int]map[int]string{}
+	span := func(ln int) map[int]string {
+		if m, ok := spans[ln]; ok {
+			return m
+		}
+		m := map[int]string{}
+		spans[ln] = m
+		if ln < 1 || ln > len(lines) {
+			return m
+		}
+		line := lines[ln-1]
+		start := 0
+		if ln == l0 {
+			start = c0 // byte index after the opening quote
+		}
+		for i := start; i < len(line); {
+			if line[i] != '\\' {
+				i++
+				continue
+			}
+			d, n := c06EscapeDecode(line[i:])
+			for k := 0; k < n && i+k < len(line); k++ {
+				m[i+k+1] = d
+			}
+			i += n
+		}
+		return m
+	}
+	var b strings.Builder
+	for i, p := range ps {
+		if d, ok := span(p.Line)[p.Col]; ok && i < len(value) {
+			if strings.IndexByte(d, value[i]) >= 0 {
+				b.WriteByte(value[i])
+			} else if d != "" {
+				b.WriteByte(d[0])
+			} else {
+				b.WriteByte('\\')
+			}
+			continue
+		}
+		one, ok := readBack(lines, []c06Pos{p}, embedded)
+		if !ok {
+			return b.String(), false
+		}
+		b.WriteString(one)
 	}
 	return b.String(), true
 }
@@ -433,9 +515,7 @@ func c06Oracle(doc c06Doc, rnd *rand.Rand, rep *runReport) c06OracleResult {
 		byPath := map[string]c06Field{}
 		for _, gf := range gr.Fields {
 			byPath[gf.Path] = gf
-			for _, c := range gf.Classes {
-				ruleClasses = c06AddClass(ruleClasses, c)
-			}
+			_ = gf // since the dq-escape fix no class excuses a rule's line range
 		}
 		for _, pf := range pfs {
 			if _, ok := byPath[pf.path]; !ok {
@@ -466,7 +546,12 @@ func c06Oracle(doc c06Doc, rnd *rand.Rand, rep *runReport) c06OracleResult {
 			if gf.Style != "plain" || gf.L1 > gf.L0 {
 				res.nontrivial = true
 			}
-			gf.Classes = c06EffClasses(gf, lines)
+			// The remaining class C06-dq-escape excuses ONE thing: the literal reading of the positions of a value byte that an
+			// escape sequence hides. Every other check below is made under the "modulo escapes" reading (a position on an
+			// escape sequence stands for the byte it decodes to) and is never excused.
+			litClasses := c06EffClasses(gf, lines)
+			gf.Classes = nil
+			isDq := c06IsDqStyle(gf.Style)
 			value := pf.node.Value
 			if gf.Want != "\x00trust-yaml" && gf.Want != value {
 				res.wantDiff++
@@ -502,6 +587,10 @@ func c06Oracle(doc c06Doc, rnd *rand.Rand, rep *runReport) c06OracleResult {
 			if !inside {
 				failKind(true, gf.Classes, "%s: a position lies outside the file (value %q, positions %v)", where, value, pos)
 				continue
+			}
+			rbLit := rb
+			if isDq {
+				rb, _ = readBackDecoded(lines, ps, value, gf.L0, gf.C0, embedded)
 			}
 			if value == "" {
 				continue
@@ -554,15 +643,28 @@ func c06Oracle(doc c06Doc, rnd *rand.Rand, rep *runReport) c06OracleResult {
 				if k == 1 && rnd.Intn(3) == 0 {
 					b = len(value) + rnd.Intn(4) // beyond the end: InjectDiagnostics clips with Len()
 				}
-				dl := pos.Len()                                       // what InjectDiagnostics clips with
+				dl := pos.Len()                                          // what InjectDiagnostics clips with
 				got := diags.VerifReadRange(min(a, dl), min(b, dl), pos) // what InjectDiagnostics underlines
+				np := len(ps)                                            // independent count of the positions
 				grb, gin := readBack(lines, expandPos(got), embedded)
-				np := len(ps) // independent count of the positions
+				if isDq && gin {
+					grb, gin = readBackDecoded(lines, expandPos(got), value[min(a, np)-1:], gf.L0, gf.C0, embedded)
+				}
 				want := value[min(a, np)-1 : min(b, np)]
 				if !gin || !foldEq(grb, want) {
 					fail(gf.Classes, "%s: diagnostic columns %d-%d of value %q land on %q, want %q", where, a, b, value, grb, want)
 					break
 				}
+			}
+			// the literal reading (the property as written): fails exactly for bytes hidden behind an escape sequence
+			if isDq && !spells(rbLit, value) {
+				lc := []string(nil)
+				for _, c := range litClasses {
+					if c == c06DqEscape {
+						lc = []string{c06DqEscape}
+					}
+				}
+				fail(lc, "%s: read back literally the positions spell %q, the value is %q (bytes hidden behind escape sequences are located on the sequence)", where, rbLit, value)
 			}
 		}
 		// every Diagnostic the offline checks attach to this rule: its column range (offsets into a field's value,
@@ -585,7 +687,7 @@ func c06Oracle(doc c06Doc, rnd *rand.Rand, rep *runReport) c06OracleResult {
 					if gf.Style == "alias" {
 						continue // not written as a scalar here
 					}
-					gf.Classes = c06EffClasses(gf, lines)
+					gf.Classes = nil // nothing is excused here (modulo-escapes reading for double-quoted scalars)
 					value := fld.node.Value
 					dl := d.Pos.Len()
 					np := len(expandPos(d.Pos)) // independent count of the positions
@@ -597,6 +699,9 @@ func c06Oracle(doc c06Doc, rnd *rand.Rand, rep *runReport) c06OracleResult {
 					rep.hist("diag:" + pb.Reporter)
 					got := diags.VerifReadRange(min(d.FirstColumn, dl), min(d.LastColumn, dl), d.Pos) // as InjectDiagnostics
 					grb, gin := readBack(lines, expandPos(got), embedded)
+					if gin && c06IsDqStyle(gf.Style) {
+						grb, gin = readBackDecoded(lines, expandPos(got), value[a-1:], gf.L0, gf.C0, embedded)
+					}
 					if !gin || !foldEq(grb, value[a-1:b]) {
 						fail(gf.Classes, "rule %d: diagnostic of %s on field %s columns %d-%d (%q) lands on %q, should cover %q of value %q",
 							ri, pb.Reporter, fld.path, d.FirstColumn, d.LastColumn, d.Message, grb, value[a-1:b], value)
@@ -678,7 +783,6 @@ func c06Oracle(doc c06Doc, rnd *rand.Rand, rep *runReport) c06OracleResult {
 	return res
 }
 
-
 // c06EffClasses: the known-finding classes of a field (only the printer-assigned ones are left).
 func c06EffClasses(gf c06Field, lines []string) []string {
 	return append([]string{}, gf.Classes...)
@@ -712,7 +816,21 @@ func c06GuardMap(doc c06Doc) map[string]bool {
 	m := map[string]bool{}
 	for ri, r := range doc.Rules {
 		for _, f := range r.Fields {
-			m[fmt.Sprintf("%d|%s", ri, f.Path)] = len(c06EffClasses(f, lines)) == 0 && f.Want != "" && f.Style != "alias"
+			inGuard := len(c06EffClasses(f, lines)) == 0 && f.Want != "" && f.Style != "alias"
+			if inGuard && c06IsDqStyle(f.Style) {
+				// double-quoted: the theorem guard covers scalars without any escape sequence on their lines (with
+				// self-escapes the token scanner is covered by correspondence and oracle only)
+				for l := f.L0; l <= f.L1 && l <= len(lines); l++ {
+					from := 0
+					if l == f.L0 {
+						from = min(max(f.C0-1, 0), len(lines[l-1]))
+					}
+					if strings.IndexByte(lines[l-1][from:], '\\') >= 0 {
+						inGuard = false
+					}
+				}
+			}
+			m[fmt.Sprintf("%d|%s", ri, f.Path)] = inGuard
 		}
 	}
 	return m
@@ -723,9 +841,9 @@ func c06GuardMap(doc c06Doc) map[string]bool {
 // parser passed it (node, minColumn, offsets) with the positions the parser attached.
 
 type c06YRule struct {
-	node             *yaml.Node
-	offLine, offCol  int
-	lines            []string
+	node            *yaml.Node
+	offLine, offCol int
+	lines           []string
 }
 
 // c06FindRules walks the yaml forest the way parseNode does (document order) and returns mapping nodes that
@@ -802,7 +920,7 @@ func (c *c06Corr) addDocument(text string, strict bool, guard map[string]bool, r
 	for _, s := range scalars {
 		minCol := pick(rnd, []int{1, 3, 3, 5, s.Column, s.Column + 2, 7})
 		obs, pan := callNPR(lines, s.Value, s.Line, s.Column, s.Style, s.Anchor, minCol, 0, 0)
-		n := c06NodeObs{id: c.id(), value: s.Value, line: s.Line, col: s.Column, block: c06IsBlock(s.Style), anchor: s.Anchor, minCol: minCol, obs: obs, panicked: pan}
+		n := c06NodeObs{id: c.id(), value: s.Value, line: s.Line, col: s.Column, block: c06IsBlock(s.Style), anchor: s.Anchor, dq: c06IsDq(s.Style), minCol: minCol, obs: obs, panicked: pan}
 		c.remember(n.id, map[string]any{"kind": "scalar-node", "text": text, "value": s.Value, "line": s.Line, "column": s.Column, "style": int(s.Style), "anchor": s.Anchor, "minColumn": minCol, "observed": obs})
 		nodes = append(nodes, n)
 		rep.hist("corr:yaml-scalar-node")
@@ -936,7 +1054,7 @@ func (c *c06Corr) ruleNodes(yr c06YRule, pr parser.Rule, text string, ruleIdx in
 	parts := parser.VerifUnpackNodesC06(yr.node)
 	var partTerms []string
 	mk := func(n *yaml.Node, minCol int, got *parser.YamlNode, what string) {
-		o := c06NodeObs{id: c.id(), value: n.Value, line: n.Line, col: n.Column, block: c06IsBlock(n.Style), anchor: n.Anchor, minCol: minCol, offLine: yr.offLine, offCol: yr.offCol, obs: got.Pos}
+		o := c06NodeObs{id: c.id(), value: n.Value, line: n.Line, col: n.Column, block: c06IsBlock(n.Style), anchor: n.Anchor, dq: c06IsDq(n.Style), minCol: minCol, offLine: yr.offLine, offCol: yr.offCol, obs: got.Pos}
 		if guard != nil && guard[fmt.Sprintf("%d|%s", ruleIdx, what)] {
 			o.guard = true
 			rep.hist("corr:field-claimed-inside-theorem-guard")
@@ -1043,6 +1161,78 @@ func c06SynthLine(r *rand.Rand) string {
 	return b.String()
 }
 
+// c06EscapeTokens: (source text, decoded bytes) of everything a double-quoted line can be made of; invalid and
+// truncated sequences included (they only occur in synthetic tables: yaml.v3 rejects them).
+var c06EscapeTokens = [][2]string{
+	{"a", "a"}, {"b", "b"}, {" ", " "}, {"n", "n"}, {"t", "t"}, {"x", "x"}, {"4", "4"}, {"'", "'"}, {"é", "é"},
+	{`\t`, "\t"}, {`\n`, "\n"}, {`\0`, "\x00"}, {`\a`, "\a"}, {`\b`, "\b"}, {`\v`, "\v"}, {`\f`, "\f"}, {`\r`, "\r"}, {`\e`, "\x1b"},
+	{"\\\t", "\t"}, {`\ `, " "}, {`\"`, `"`}, {`\/`, "/"}, {`\\`, `\`}, {`\N`, "\u0085"}, {`\_`, "\u00a0"}, {`\L`, "\u2028"}, {`\P`, "\u2029"},
+	{`\x41`, "A"}, {`\x7f`, "\x7f"}, {`\xe9`, "é"}, {`\u00e9`, "é"}, {`\u2192`, "→"}, {`\U0001F600`, "😀"}, {`\u0041`, "A"},
+	{`\xZ1`, ""}, {`\u12`, ""}, {`\q`, "q"}, {`\ud800`, "\ufffd"}, {`\UFFFFFFFF`, "\ufffd"}, {`\x4`, ""},
+}
+
+// addSyntheticEscapes: lines made of escape tokens, values = the decoded text of a sub-sequence of the tokens (in sync,
+// skipping, or diverging), nodes mostly double quoted (the same table as a plain node must ignore the escapes).
+func (c *c06Corr) addSyntheticEscapes(r *rand.Rand, rep *runReport) {
+	nl := 1 + r.Intn(3)
+	lines := make([]string, nl)
+	decs := make([][]string, nl)
+	for i := range lines {
+		var b strings.Builder
+		b.WriteString(sp(r.Intn(3)))
+		if i == 0 {
+			b.WriteString(`k: "`)
+		}
+		for k := r.Intn(9); k > 0; k-- {
+			t := pick(r, c06EscapeTokens)
+			b.WriteString(t[0])
+			decs[i] = append(decs[i], t[1])
+		}
+		if i == nl-1 {
+			b.WriteString(pick(r, []string{`"`, `" # c`, `\`, ""}))
+		} else if r.Intn(4) == 0 {
+			b.WriteString(`\`) // escaped line break
+		}
+		lines[i] = b.String()
+	}
+	var nodes []c06NodeObs
+	for k := 0; k < 5; k++ {
+		var v strings.Builder
+		for i := range lines {
+			for _, d := range decs[i] {
+				if r.Intn(5) != 0 {
+					v.WriteString(d)
+				}
+			}
+			if i < nl-1 && r.Intn(3) != 0 {
+				v.WriteString(pick(r, []string{" ", "\n"}))
+			}
+		}
+		if r.Intn(6) == 0 {
+			v.WriteString(pick(r, []string{"z", "\n", `\`}))
+		}
+		val := v.String()
+		if val == "" {
+			val = "a"
+		}
+		style := pick(r, []yaml.Style{yaml.DoubleQuotedStyle, yaml.DoubleQuotedStyle, yaml.DoubleQuotedStyle, 0, yaml.SingleQuotedStyle})
+		line := 1
+		col := 1 + r.Intn(len(lines[0])+1)
+		if r.Intn(3) != 0 {
+			col = strings.Index(lines[0], `"`) + 1
+		}
+		minCol := pick(r, []int{1, 1, 1, 3})
+		obs, pan := callNPR(lines, val, line, col, style, "", minCol, 0, 0)
+		n := c06NodeObs{id: c.id(), value: val, line: line, col: col, dq: c06IsDq(style), minCol: minCol, obs: obs, panicked: pan}
+		c.remember(n.id, map[string]any{"kind": "synthetic-escape-node", "lines": lines, "value": val, "line": line, "column": col, "style": int(style),
+			"minColumn": minCol, "observed": obs, "panicked": pan})
+		nodes = append(nodes, n)
+		rep.hist("corr:synthetic-escape-node")
+		rep.count(fmt.Sprintf("esc|%q|%q|%d|%d", lines, val, col, style), len(obs) > 1)
+	}
+	c.w.add(coqDoc(lines, nodes))
+}
+
 func (c *c06Corr) addSynthetic(r *rand.Rand, rep *runReport) {
 	nl := 1 + r.Intn(6)
 	lines := make([]string, nl)
@@ -1101,7 +1291,7 @@ func (c *c06Corr) addSynthetic(r *rand.Rand, rep *runReport) {
 			style = pick(r, []yaml.Style{yaml.LiteralStyle, yaml.FoldedStyle, yaml.LiteralStyle | yaml.TaggedStyle})
 			rep.hist("synthetic:block-style")
 		case 2:
-			style = pick(r, []yaml.Style{yaml.DoubleQuotedStyle, yaml.SingleQuotedStyle, yaml.TaggedStyle, yaml.FlowStyle})
+			style = pick(r, []yaml.Style{yaml.DoubleQuotedStyle, yaml.DoubleQuotedStyle, yaml.DoubleQuotedStyle | yaml.TaggedStyle, yaml.SingleQuotedStyle, yaml.TaggedStyle, yaml.FlowStyle})
 		case 3:
 			anchor = pick(r, []string{"a", "up", "x1", "é", "b c"})
 			rep.hist("synthetic:anchor")
@@ -1110,7 +1300,7 @@ func (c *c06Corr) addSynthetic(r *rand.Rand, rep *runReport) {
 		if pan {
 			rep.hist("synthetic:implementation-panicked")
 		}
-		n := c06NodeObs{id: c.id(), value: v.String(), line: line, col: col, block: c06IsBlock(style), anchor: anchor, minCol: minCol, offLine: offL, offCol: offC, obs: obs, panicked: pan}
+		n := c06NodeObs{id: c.id(), value: v.String(), line: line, col: col, block: c06IsBlock(style), anchor: anchor, dq: c06IsDq(style), minCol: minCol, offLine: offL, offCol: offC, obs: obs, panicked: pan}
 		c.remember(n.id, map[string]any{"kind": "synthetic-node", "lines": lines, "value": v.String(), "line": line, "column": col, "style": int(style), "anchor": anchor, "minColumn": minCol,
 			"offsetLine": offL, "offsetColumn": offC, "observed": obs, "panicked": pan})
 		nodes = append(nodes, n)
@@ -1248,7 +1438,7 @@ func c06CorpusOracle(d c06Doc, rep *runReport) {
 func runC06(args []string) int {
 	n := argInt(args, "--n", 300)
 	extra := argInt(args, "--extra", 0) // additional documents checked by the oracle only (no correspondence cases)
-	noCases := false // search mode: only the implementation-level oracle, no correspondence case files
+	noCases := false                    // search mode: only the implementation-level oracle, no correspondence case files
 	for _, a := range args {
 		if a == "--no-cases" {
 			noCases = true
@@ -1277,6 +1467,9 @@ func runC06(args []string) int {
 	nSynth := n / 2
 	for i := 0; i < nSynth; i++ {
 		corr.addSynthetic(rnd, rep)
+		if i%3 == 0 {
+			corr.addSyntheticEscapes(rnd, rep)
+		}
 	}
 	for i := 0; i < n+extra; i++ {
 		doc := c06GenDoc(rnd)
